@@ -398,11 +398,18 @@ func splitPeriod(mpd *m.MPD, a *asset, cfg *ResponseConfig, wTimes wrapTimes) er
 	for pNr := startPeriodNr; pNr <= endPeriodNr; pNr++ {
 		p := inPeriod.Clone()
 		p.Id = fmt.Sprintf("P%d", pNr)
-		p.Start = m.Seconds2DurPtr(pNr * periodDur)
+		// Period borders are at multiples of periodDur on the wall clock, while Period@start,
+		// presentationTimeOffset and segment times are relative to availabilityStartTime.
+		periodStartS := pNr*periodDur - cfg.StartTimeS
+		if periodStartS < 0 { // The period in which the presentation starts
+			periodStartS = 0
+		}
+		periodEndS := (pNr+1)*periodDur - cfg.StartTimeS
+		p.Start = m.Seconds2DurPtr(periodStartS)
 		for aNr, as := range p.AdaptationSets {
 			inAS := inPeriod.AdaptationSets[aNr]
 			timeScale := int(as.SegmentTemplate.GetTimescale())
-			pto := Ptr(uint64(pNr * periodDur * timeScale))
+			pto := Ptr(uint64(periodStartS * timeScale))
 			templateType := cfg.liveMPDType()
 			if as.ContentType == "image" {
 				templateType = segmentNumber
@@ -411,18 +418,18 @@ func splitPeriod(mpd *m.MPD, a *asset, cfg *ResponseConfig, wTimes wrapTimes) er
 			case segmentNumber:
 				as.SegmentTemplate.PresentationTimeOffset = pto
 				segDur := int(*as.SegmentTemplate.Duration)
-				startNr := uint32(pNr * periodDur * timeScale / segDur)
+				startNr := uint32(periodStartS*timeScale/segDur + cfg.getStartNr())
 				as.SegmentTemplate.StartNumber = Ptr(startNr)
 			case timeLineTime:
 				as.SegmentTemplate.PresentationTimeOffset = pto
 				inS := inAS.SegmentTemplate.SegmentTimeline.S
-				periodStart, periodEnd := uint64(pNr*periodDur), uint64((pNr+1)*periodDur)
+				periodStart, periodEnd := uint64(periodStartS), uint64(periodEndS)
 				as.SegmentTemplate.SegmentTimeline.S, _ = reduceS(inS, nil, timeScale, periodStart, periodEnd)
 			case timeLineNumber:
 				as.SegmentTemplate.PresentationTimeOffset = pto
 				inS := inAS.SegmentTemplate.SegmentTimeline.S
 				startNr := inAS.SegmentTemplate.StartNumber
-				periodStart, periodEnd := uint64(pNr*periodDur), uint64((pNr+1)*periodDur)
+				periodStart, periodEnd := uint64(periodStartS), uint64(periodEndS)
 				as.SegmentTemplate.SegmentTimeline.S, as.SegmentTemplate.StartNumber = reduceS(inS, startNr, timeScale, periodStart, periodEnd)
 			default:
 				return fmt.Errorf("unknown mpd type")
